@@ -1,0 +1,14 @@
+//go:build verif
+
+package file
+
+// Verification hooks (see /verif, property C12). Not compiled without the "verif" build tag.
+
+// VerifPGPAlgorithmNames returns the public-key algorithm name table of pgp.go.
+func VerifPGPAlgorithmNames() map[uint8]string {
+	out := map[uint8]string{}
+	for k, v := range pubkeyAlgorithmNames {
+		out[uint8(k)] = v
+	}
+	return out
+}
